@@ -130,10 +130,13 @@ func (attrComp) Exec(c *wire.Case, w *wire.Writer) {
 		if op.Name != "modsp" {
 			st := svc.State(id)
 			if st == info.Invalid {
-				w.Ob(wire.R("snap").I("id", int(id)).I("known", 0).I("sp", svc.SP()))
+				// every getter's answer for a unit that is not registered
+				w.Ob(wire.R("snap").I("id", int(id)).I("known", 0).I("sp", svc.SP()).F("hpr", svc.HPRatio(id)).F("energy", svc.Energy(id)).F("stance", svc.Stance(id)).
+					F("maxenergy", svc.MaxEnergy(id)).F("maxstance", svc.MaxStance(id)).B("full", svc.FullEnergy(id)).B("alive", svc.IsAlive(id)).I("last", int(svc.LastAttacker(id))))
 			} else {
 				w.Ob(wire.R("snap").I("id", int(id)).I("known", 1).F("hpr", svc.HPRatio(id)).F("energy", svc.Energy(id)).
-					F("stance", svc.Stance(id)).S("life", lifeName(st)).I("last", int(svc.LastAttacker(id))).I("sp", svc.SP()))
+					F("stance", svc.Stance(id)).S("life", lifeName(st)).I("last", int(svc.LastAttacker(id))).I("sp", svc.SP()).
+					F("maxenergy", svc.MaxEnergy(id)).F("maxstance", svc.MaxStance(id)).B("full", svc.FullEnergy(id)).F("eratio", svc.EnergyRatio(id)).B("alive", svc.IsAlive(id)))
 			}
 		} else {
 			w.Ob(wire.R("snap").I("sp", svc.SP()))
